@@ -398,7 +398,7 @@ func (s *Sub[C]) record(c C, err error) {
 	raw, _ := json.Marshal(c)
 	dir := filepath.Join(root, "replays", Property)
 	os.MkdirAll(dir, 0o755)
-	file := filepath.Join(dir, fmt.Sprintf("%s-s%d-%d.json", sanitize(s.Name), seed, shard))
+	file := filepath.Join(dir, fmt.Sprintf("%s-s%d-%d.json", sanitize(key), seed, shard))
 	doc := map[string]any{
 		"property": Property, "sub": s.Name, "key": key, "message": err.Error(),
 		"tier": tier, "seed": seed, "shard": shard, "case": json.RawMessage(raw),
@@ -406,7 +406,7 @@ func (s *Sub[C]) record(c C, err error) {
 	b, _ := json.MarshalIndent(doc, "", " ")
 	os.WriteFile(file, b, 0o644)
 	mu.Lock()
-	violations[s.Name] = violationRec{Sub: s.Name, Key: key, Replay: file, Msg: firstLine(err.Error())}
+	violations[s.Name+"|"+key] = violationRec{Sub: s.Name, Key: key, Replay: file, Msg: firstLine(err.Error())}
 	mu.Unlock()
 	fmt.Fprintf(os.Stderr, "VERIF-VIOLATION property=%s sub=%s key=%s replay=%s\n", Property, s.Name, key, file)
 }
